@@ -250,7 +250,7 @@ int main(int argc,char **argv){
    chunk_log2=(int)mc_arg("--chunk-log2",24);
    sample_mod=strcmp(MC.part,"pvq")?167:23;     /* the secondary builds contribute two samples, the main part more */
    c_eval=mc_counter("evaluations"); c_rt=mc_counter("index_roundtrips"); c_states=mc_counter("states"); c_vec=mc_counter("vector_roundtrips");
-   c_coder=mc_counter("coder_roundtrips"); c_tab=mc_counter("table_words"); c_pairs_full=mc_counter("pairs_fully_walked"); c_sumV_full=mc_counter("sumV_fully_walked");
+   c_coder=mc_counter("coder_roundtrips"); c_tab=mc_counter("table_words"); c_pairs_full=mc_counter("pairs_planned_full_walk"); c_sumV_full=mc_counter("sumV_planned_full_walk");
    classes=mc_set_new(18);
    c17_model_init();
    for(n=0;n<NROWS;n++){ row_s[n]=(int)((CELT_PVQ_U_ROW[n]+n)-CELT_PVQ_U_DATA); row_e[n]= n+1<NROWS ? (int)((CELT_PVQ_U_ROW[n+1]+n+1)-CELT_PVQ_U_DATA) : NDATA; }
